@@ -743,7 +743,7 @@ func (s *sim) impactRound(between func()) {
 		}
 		if t, ok := tss[k.id]; !ok || t != k.ts || math.Float64bits(vals[k.id]) != v {
 			s.fail(fmt.Sprintf("impact job with an operation running between its two critical sections: device %d timeslot %d now holds rate %v, which the job was not given for that timeslot (given: timeslot %d rate %v; window offset before %d, after %d)",
-				k.id, k.ts, math.Float64frombits(v), tss[k.id], vals[k.id], sn.Offset, after.Offset), "c13-impact-misplaced")
+				k.id, k.ts, math.Float64frombits(v), tss[k.id], vals[k.id], sn.Offset, after.Offset), "impact-misplaced")
 		}
 	}
 	for id, t := range tss {
@@ -754,7 +754,7 @@ func (s *sim) impactRound(between func()) {
 			continue
 		}
 		if a[slotKey{id, t}] != math.Float64bits(vals[id]) && vals[id] != 0 {
-			s.fail(fmt.Sprintf("impact job with an operation running between its two critical sections: the rate %v given for device %d timeslot %d (inside the window at offset %d) was not stored", vals[id], id, t, after.Offset), "c13-impact-lost")
+			s.fail(fmt.Sprintf("impact job with an operation running between its two critical sections: the rate %v given for device %d timeslot %d (inside the window at offset %d) was not stored", vals[id], id, t, after.Offset), "impact-lost")
 		}
 	}
 }
